@@ -421,3 +421,35 @@ pub fn check_jacobian<T: Sc>(prob: &dyn Prob<T>, lin: &Lin, c: &Mat, jac: &DMatr
     }
     Ok(skipped)
 }
+
+/// per Jacobian column k: |W D_k C|_F, the quantity the rounding error of column k is
+/// relative to (J_k = P v - v cancels when v lies almost in range(A))
+pub fn jacobian_scales<T: Sc>(prob: &dyn Prob<T>, lin: &Lin) -> Option<Vec<f64>> {
+    let c = Mat::from_na(&prob.coeffs()?);
+    let p = prob.shape().p;
+    let mut out = Vec::with_capacity(p);
+    for k in 0..p {
+        let v = weighted_dkc(prob, lin, &c, k).ok()?;
+        out.push(v.fro());
+    }
+    Some(out)
+}
+
+/// H = W [Phi | D_1 c | ... | D_P c] of the statistics (single right-hand side), from the
+/// model's own evaluations at the problem's current parameters and coefficients
+pub fn stats_h<T: Sc>(prob: &dyn Prob<T>, c: &Mat, weighted: bool) -> Result<Mat, String> {
+    let sh = prob.shape();
+    let phi = Mat::from_na(&prob.phi()?);
+    let mut h = phi;
+    for k in 0..sh.p {
+        let dk = Mat::from_na(&prob.dphi(k)?);
+        h = h.hcat(&dk.mul(c));
+    }
+    if weighted {
+        if let Some(w) = prob.weights_vec() {
+            let w: Vec<f64> = w.iter().map(|v| v.f()).collect();
+            h = h.row_scale(&w);
+        }
+    }
+    Ok(h)
+}
